@@ -13,7 +13,7 @@
    reply may list a repeated value once (Dedup) or as often as it was added.
 
    The module is used three ways: (S) this file, TLC checks the algebraic lemmas below on every small
-   world chosen in Init; (G) ClaimsGen extends it to enumerate worlds; (T) Trace_Claims / Trace_Paging
+   world its world-building actions reach; (G) ClaimsGen extends it to enumerate worlds; (T) Trace_Claims / Trace_Paging
    recompute the operators on the world file of a recorded execution of the real index/corpus/search. *)
 EXTENDS Integers, Sequences, FiniteSets, TLC
 
